@@ -410,7 +410,7 @@ func c12(r *core.Run) {
 					skipOK := false
 					for _, c := range core.Calls(cl) {
 						cal := c.Common().StaticCallee()
-						if cal == nil || cal.Name() != "setValue" {
+						if cal == nil || !isStoreSetValue(cal) {
 							continue
 						}
 						for _, ed := range dominatingEdges(c) {
